@@ -71,6 +71,7 @@ str_net_to_ss(const char *buf, size_t buf_size, sockaddr_storage_p addr,
 	int error;
 	const char *ptm;
 	uint16_t preflen;
+	size_t i, tm;
 
 	if (NULL == buf || 0 == buf_size || NULL == addr)
 		return (EINVAL);
@@ -78,7 +79,15 @@ str_net_to_ss(const char *buf, size_t buf_size, sockaddr_storage_p addr,
 	ptm = mem_rchr(buf, buf_size, '/'); /* net-preflen delimiter. */
 	if (NULL != ptm) {
 		ptm ++;
-		preflen = str2u16(ptm, (size_t)(buf_size - (size_t)(ptm - buf)));
+		/* Prefix length: 1-3 decimal digits, range is checked below. */
+		tm = (size_t)(buf_size - (size_t)(ptm - buf));
+		if (0 == tm || 3 < tm)
+			return (EINVAL);
+		for (i = 0; i < tm; i ++) {
+			if ('0' > ptm[i] || '9' < ptm[i])
+				return (EINVAL);
+		}
+		preflen = str2u16(ptm, tm);
 		ptm --;
 	} else {
 		ptm = (const char*)(buf + buf_size);
@@ -93,12 +102,14 @@ str_net_to_ss(const char *buf, size_t buf_size, sockaddr_storage_p addr,
 	case AF_INET:
 		if (0xffff == preflen) {
 			preflen = 32;
-		}
+		} else if (32 < preflen)
+			return (EINVAL);
 		break;
 	case AF_INET6:
 		if (0xffff == preflen) {
 			preflen = 128;
-		}
+		} else if (128 < preflen)
+			return (EINVAL);
 		break;
 	}
 	if (NULL != preflen_ret) {
